@@ -47,13 +47,17 @@ type histOpts struct {
 	// situations in which a parser has to fall back from a candidate outside
 	// the window to one inside.
 	triplePct int
+	// uniformPct: percentage of histories whose whole text is uniform over
+	// 2..16 letters (expanded from one drawn seed): isolated short matches
+	// at unpredictable places, long literal tails, hash collisions.
+	uniformPct int
 }
 
 func defaultHistOpts() histOpts {
 	return histOpts{
 		maxOps: 24, maxText: 600,
 		write: 8, fill: 6, readFrom: 4, parse: 12, drain: 6, shrink: 6,
-		resetNil: 1, resetDat: 1, ntl: 30, tinyPct: 12, zeroPct: 30, overReset: true,
+		resetNil: 1, resetDat: 1, ntl: 30, ntlPair: 3, tinyPct: 12, zeroPct: 30, uniformPct: 12, overReset: true,
 	}
 }
 
@@ -112,6 +116,18 @@ func genParserHistory(t *rapid.T, x *parserExec, o histOpts) {
 		}
 	} else if tiny {
 		text = genText(t, "text", rapid.IntRange(2, 12).Draw(t, "tinyText"))
+	} else if o.uniformPct > 0 && rapid.IntRange(0, 99).Draw(t, "uniformText") < o.uniformPct {
+		k := rapid.SampledFrom([]int{3, 2, 4, 8, 16}).Draw(t, "uniformK")
+		x := rapid.Uint64().Draw(t, "uniformSeed")
+		text = make([]byte, maxInt(o.maxText-rapid.IntRange(0, o.maxText*3/4).Draw(t, "uniformShort"), 1))
+		base := rapid.SampledFrom([]byte{'a', 0, 0xf0}).Draw(t, "uniformBase")
+		for i := range text {
+			x += 0x9e3779b97f4a7c15
+			z := x
+			z = (z ^ (z >> 30)) * 0xbf58476d1ce4e5b9
+			z = (z ^ (z >> 27)) * 0x94d049bb133111eb
+			text[i] = base + byte((z^(z>>31))>>33%uint64(k))
+		}
 	} else if o.triplePct > 0 && rapid.IntRange(0, 99).Draw(t, "tripleText") < o.triplePct {
 		text = genTripleText(t, cc, o.maxText)
 	} else if o.suffixPct > 0 && rapid.IntRange(0, 99).Draw(t, "suffixText") < o.suffixPct {
